@@ -203,7 +203,7 @@ func eventsDigest(evs []abci.Event) string {
 		mix(e.Type)
 		for _, a := range e.Attributes {
 			mix(a.Key)
-			mix(a.Value)
+			mix(normPtr(a.Value))
 		}
 	}
 	return strconv.FormatUint(h, 16)
